@@ -7,6 +7,7 @@ CONSTANTS
   MaxStalls = 1
   MaxAsk = 1
   AskSelectsQuit = FALSE
+  ResetStopsUnderLock = FALSE
   FixCallEntry = TRUE
   FixResetSnapshot = TRUE
   FixRemoveOwn = TRUE
